@@ -50,6 +50,13 @@ theorem exactly_once_resumed_current (limit : Nat) (acts : List Act) (x : Item) 
         (gotAll s.log).countP (fun d => d.2 == x) + s.dropped.countP (fun d => d.2 == x) :=
   exactly_once_resumed cfg (by decide) (by decide) limit acts x
 
+/-- thread channels pack with `janet_marshal(.., JANET_MARSHAL_UNSAFE)` and unpack with `janet_unmarshal(.., JANET_MARSHAL_UNSAFE ..)` -
+    the functions modelled by C09's `Marsh/Graph.lean` - with the same pass-through set on both sides, and the UNSAFE flag is
+    consulted in pointer-like cases only: `payload_roundtrip` (an instance of C09's `roundtrip_graph_top`) speaks about today's code -/
+theorem payload_codec_shape :
+    Gen.Thread.packUsesMarshalUnsafe = true ∧ Gen.Thread.unpackUsesUnmarshalUnsafe = true ∧
+    Gen.Thread.packUnpackSamePassthrough = true ∧ Gen.Thread.unsafeFlagOnlyPointerLike = true := by decide
+
 /-- supervisor events are mode-2 pushes (`giveNB`), ev/give-supervisor is a give, mode 2 never parks -/
 theorem supervisor_shape :
     Gen.Thread.supervisorEventIsMode2Push = true ∧ Gen.Thread.giveSupervisorIsGive = true ∧ Gen.Thread.mode2NeverParks = true := by
@@ -87,5 +94,18 @@ theorem refcount_ge_reachers_current (acts : List RAct) :
     (s.freed = false → s.refcount = s.holds.length + s.transit) ∧ (s.freed = true → s.holds = [] ∧ s.transit = 0) ∧
       s.useAfterFree = false :=
   refcount_ge_reachers rcfg (by decide) (by decide) acts
+
+/-- ev/lock and ev/rwlock are threaded abstracts with no marshal hooks (they cross threads only as pointer + incref, the
+    threaded path being taken before any type hook), their finalizers only destroy the OS primitive, and every lock operation
+    works on the primitive inside the abstract's memory -/
+theorem lock_types_shape :
+    Gen.Thread.lockTypesThreaded = true ∧ Gen.Thread.lockTypesNoMarshalHook = true ∧ Gen.Thread.lockFinalizerDeinitsOnly = true ∧
+    Gen.Thread.lockOpsUseAbstractMemory = true ∧ Gen.Thread.threadedPathBeforeTypeHook = true := by decide
+
+theorem locks_valid_while_reachable_current (acts : List RAct) :
+    let s := rrun rcfg acts {}
+    (∀ t, s.reach t = true → s.freed = false) ∧ (0 < s.transit → s.freed = false) ∧ s.useAfterFree = false :=
+  have _ := lock_types_shape
+  shared_valid_while_reachable rcfg (by decide) (by decide) acts
 
 end JanetModel.Thread.Current
